@@ -16,9 +16,9 @@ FUNCTIONS = ["xgcm.padding:_pad_face_connections", "xgcm.padding:_maybe_rename_g
              "xgcm.grid_ufunc:apply_as_grid_ufunc", "xgcm.grid_ufunc:_pad_then_rechunk", "xgcm.grid_ufunc:_check_data_input",
              "xgcm.grid_ufunc:_maybe_unpack_vector_component"]
 BOUNDS = {
-    "quick": {"decompositions": "(2,1),(1,2),(2,2): every assignment of the 4 rotations per face whose junctions are all non-reversed links; open (fill 0) and periodic domain; plus the grid without face connections",
+    "quick": {"decompositions": "(2,1),(1,2),(2,2),(3,1),(1,3): every assignment of the 4 rotations per face whose junctions are all non-reversed links; open (fill 0) and periodic domain; plus the grid without face connections",
               "N": [2], "operators": ["diff", "interp"], "components": ["X", "Y"], "extra dims": ["none", "t before face"]},
-    "thorough": {"decompositions": "+ (3,1),(1,3),(3,2),(2,3)", "N": [2, 3]},
+    "thorough": {"decompositions": "+ (3,2),(2,3)", "N": [2, 3]},
 }
 OUTSIDE = ["reversed links for vectors (excluded by the statement)", "non-centre targets", "open edges under a rule other than fill 0 when a face is rotated", "float rounding"]
 ASSUMPTIONS = ["input data finite"]
@@ -27,13 +27,13 @@ COORDS = {"X": {"center": "xc", "left": "xg"}, "Y": {"center": "yc", "left": "yg
 
 def cases(tier):
     out = []
-    shapes = [(2, 1), (1, 2), (2, 2)] + ([(3, 1), (1, 3), (3, 2), (2, 3)] if tier == "thorough" else [])
+    shapes = [(2, 1), (1, 2), (2, 2), (3, 1), (1, 3)] + ([(3, 2), (2, 3)] if tier == "thorough" else [])
     for (Kx, Ky) in shapes:
         for periodic in (False, True):
             oris = expressible_orientations(Kx, Ky, 2, periodic, group=ROT, only_nonreversed=True)
             for orient in oris:
                 for N in ([2] if tier == "quick" else [2, 3]):
-                    for lay in ("fyx", "tfyx"):
+                    for lay in (("fyx", "tfyx") if Kx * Ky <= 2 or tier == "thorough" else ("fyx",)):
                         out.append(dict(kind="faces", Kx=Kx, Ky=Ky, N=N, orient=[list(map(list, o)) for o in orient],
                                         periodic=periodic, lay=lay, n_admissible=len(oris), n_rotations=4 ** (Kx * Ky)))
     for N in (2, 3):
